@@ -396,7 +396,32 @@ pub fn fma_subnormal_product_triple(r: &mut Rng) -> (u128, u128, u128) {
     (enc(r.chance(1, 2), c1, e1), enc(r.chance(1, 2), c2, e2), z)
 }
 
+/// fma triples whose exact result lies within a hair of a tie of the FINAL (subnormal) quantum while the product has 67–68
+/// digits: x·y = (t + ½ ± ε)·10^(emin+j)·… built from factorisations of 5·10^66 with small offsets (2·10^33 + a)(25·10^32 − b),
+/// placed so that j digits of the sum survive, plus a small addend at emin.  Rounding first to 34 digits and then to the
+/// final quantum differs from rounding once exactly here (the double-rounding repairs of the long fma paths).
+pub fn fma_half_quantum_triple(r: &mut Rng) -> (u128, u128, u128) {
+    let (f1, f2): (u128, u128) = *r.pick(&[(2 * P33, 25 * pow10(32)), (4 * P33, 125 * pow10(31)), (5 * P33, P33), (8 * P33, 625 * pow10(30)), (P33 * 2, 75 * pow10(32)), (6 * P33, 25 * pow10(32))]);
+    // (f1 + a)(f2 − b) = f1·f2 + (f2·a − f1·b) − a·b: choose a ≈ b·f1/f2 so that the first-order terms cancel and the
+    // product differs from m·10^66 by less than half a unit of its 34th digit (the first rounding is then inexact but
+    // returns the round number), or by a little more
+    let b = r.below(40) as u128;
+    let a0 = (b * (f1 / pow10(30)) + (f2 / pow10(30)) / 2) / (f2 / pow10(30));
+    let a = match r.below(4) { 0 => a0 + 1, 1 => a0.saturating_sub(1), _ => a0 };
+    let c1 = f1 + a;
+    let c2 = f2 - b.min(f2 - 1);
+    // product ≈ m·10^66 or so, 67 digits: leading digit at 10^(pe + 66); j digits survive above emin
+    let j = if r.chance(1, 2) { 0 } else { r.below(4) as i32 };
+    let pe = EMIN - 67 + j;                              // e1 + e2
+    let e1 = -3000 - r.below(200) as i32;
+    let e2 = pe - e1;
+    let zs = r.chance(1, 2);
+    let z = match r.below(4) { 0 => enc(zs, 0, EMIN), 1 => enc(zs, 1, EMIN), 2 => enc(zs, r.below(5) as u128, EMIN), _ => enc(zs, r.below(1000) as u128, EMIN) };
+    (enc(r.chance(1, 2), c1, e1), enc(r.chance(1, 2), c2, e2.clamp(EMIN, EMAX)), z)
+}
+
 pub fn fma_triple(r: &mut Rng) -> (u128, u128, u128) {
+    if r.chance(1, 16) { return fma_half_quantum_triple(r); }
     match r.below(15) {
         13 | 14 => fma_subnormal_product_triple(r),
         10 | 11 | 12 => fma_tail_triple(r),
